@@ -107,3 +107,18 @@ Theorem C01_reachable_configurations_wf : forall body args m c,
   steps m (init_cfg body args) = inl c -> wf c.
 Proof. exact reachable_wf. Qed.
 Print Assumptions C01_reachable_configurations_wf.
+
+(* generic for (manual 3.3.5): the loop ends exactly when the first value is nil; false
+   is an ordinary control value *)
+Theorem C01_forin_ends_on_nil : forall xs f s b ρ ln k σ tr ln0 cs vs,
+  first vs = VNil ->
+  step (mkCfg (CRet vs) (KForInC xs f s b ρ ln :: k) σ tr ln0 cs) = inl (mkCfg CDone k σ tr ln0 cs).
+Proof. exact forin_ends_on_nil. Qed.
+Print Assumptions C01_forin_ends_on_nil.
+
+Theorem C01_forin_continues_on_false : forall xs f s b ρ ln k σ tr ln0 cs bb vs,
+  step (mkCfg (CRet (VBool bb :: vs)) (KForInC xs f s b ρ ln :: k) σ tr ln0 cs) =
+  inl (let '(ρv, s', _) := bind_names xs (VBool bb :: vs) (vars ρ) σ in
+       mkCfg (CBlock b (mkEnv ρv (va ρ)) []) (KForIn xs f s (VBool bb) b ρ ln :: k) s' tr ln0 cs).
+Proof. exact forin_continues_on_false. Qed.
+Print Assumptions C01_forin_continues_on_false.
